@@ -339,6 +339,20 @@ class C07(Spec):
         for name in ("open", "feed", "Feed", "opn", "", "feed "):
             for arg in ("main", "nosuch", "", "gopher://dead.invalid/y"):
                 pcases.append(Case("uisub", text_tokens(name) + text_tokens(arg) + [2] + text_tokens("main") + text_tokens("other"), {"keys": [], "sub": [name, arg]}))
+        # a media hook that FAILS (exit status 1): the failure is shown once in the status line, then the UI is back to normal
+        fcases = []
+        for _ in range(40 if tier == "quick" else 1500):
+            w = thread_world(rng)
+            while len(w[0][w[1]][3]) < 1:
+                w = thread_world(rng)
+            keys = [259]
+            for _ in range(rng.randint(2, 6)):
+                keys += rng.choice([[ord("1"), 13], [ord("1"), 13, ord("j")], [ord("k")], [ord("1"), 13, 27], [ord("2"), 13], [ord("1"), ord("."), ord("h")]])
+            fcases.append(ui_case(w, keys, preload=rng.choice((1, 2)), width=rng.choice((60, 24)), feeds=feeds))
+        fb = Batch("c07-hookfail", fcases, config="[media]\nhook = [\"false\", \"%url\"]\n", env=env, timeout=900,
+                   correspondence="a failing media hook: ui.State == Ui.run_task THook with hook_fails")
+        fb.parallel = False
+        runner.run_batches(self, scratch, binary, [fb], report)
         pb = Batch("c07-pub", pcases, config=cfg, env=env, timeout=1200,
                    correspondence="ui.State.Update over real pub.Post/Actor/Activity items == Ui.update (creators, recipients, actor, media hooks)")
         pb.parallel = False
